@@ -144,7 +144,7 @@ class Fixture:
         return self.git("rev-parse", "HEAD").strip()
 
     # ------------------------------------------------------------------ commands
-    def add_cmd(self, target, cmd, steps=None, kind="def", ext="", defpath=None, cmd_dir=None, ident=None):
+    def add_cmd(self, target, cmd, steps=None, kind="def", ext="", defpath=None, cmd_dir=None, ident=None, copy=False):
         """kind: def (executable vhelper link), noexec (regular file without x bit), undef (nothing).
         Returns the helper key or None."""
         if kind == "undef":
@@ -163,6 +163,8 @@ class Fixture:
             os.chmod(path, 0o644)
             return None
         try:
+            if copy:
+                raise OSError("copy requested")     # a file of its own (its mode may be changed without touching the helper binary)
             os.link(self.bins["vhelper"], path)
         except OSError:
             shutil.copyfile(self.bins["vhelper"], path)
